@@ -217,4 +217,12 @@ ADDENDA_W10 = {
 }
 for _k, _t in ADDENDA_W10.items():
     TEXTS[_k]['level'] += ' ' + _t
+ADDENDA_W11 = {
+    'C02': "NUM6: a number strtod converted is refused only if it is not finite.",
+    'C07': "OWN11: a node handed over by value leaves nothing behind.",
+    'C08': "OUT4: a refused reallocate releases the old block.",
+    'C16': "TAB10: comparisons with operation names are of the whole name.",
+}
+for _k, _t in ADDENDA_W11.items():
+    TEXTS[_k]['level'] += ' ' + _t
 NOT_APPLICABLE = {}
